@@ -355,9 +355,29 @@ fn parse_shim_log(text: &str) -> (Vec<EntEvent>, Vec<IoEvent>) {
 #[derive(Debug)]
 pub struct HarnessError(pub String);
 
+/// Number of simulated processes that hit the watchdog once and completed when re-run alone.
+pub static SPURIOUS_TIMEOUTS: std::sync::atomic::AtomicUsize = std::sync::atomic::AtomicUsize::new(0);
+
 /// Execute one simulated process in `dir` (a directory owned by the calling
-/// worker; it is emptied first).
+/// worker; it is emptied first). A process killed by the wall-clock watchdog is
+/// executed once more, alone (no other re-run at the same time) and with twice
+/// the limit, before the timeout is believed: the watchdog is the only place
+/// where host load could leak into a verdict.
 pub fn exec(ctx: &Ctx, dir: &Path, cmd: &Cmd) -> Result<Outcome, HarnessError> {
+    static ALONE: Mutex<()> = Mutex::new(());
+    let first = exec_once(ctx, dir, cmd, ctx.timeout)?;
+    if first.status != Status::Timeout {
+        return Ok(first);
+    }
+    let _g = ALONE.lock().unwrap_or_else(|e| e.into_inner());
+    let second = exec_once(ctx, dir, cmd, ctx.timeout * 2)?;
+    if second.status != Status::Timeout {
+        SPURIOUS_TIMEOUTS.fetch_add(1, std::sync::atomic::Ordering::Relaxed);
+    }
+    Ok(second)
+}
+
+fn exec_once(ctx: &Ctx, dir: &Path, cmd: &Cmd, timeout: Duration) -> Result<Outcome, HarnessError> {
     let he = |s: String| HarnessError(s);
     // fresh directory contents
     if let Ok(rd) = std::fs::read_dir(dir) {
@@ -491,7 +511,7 @@ pub fn exec(ctx: &Ctx, dir: &Path, cmd: &Cmd) -> Result<Outcome, HarnessError> {
     let t0 = Instant::now();
     let mut child = c.spawn().map_err(|e| he(format!("spawn: {e}")))?;
     let pid = child.id();
-    watch().lock().unwrap().deadlines.insert(pid, Instant::now() + ctx.timeout);
+    watch().lock().unwrap().deadlines.insert(pid, Instant::now() + timeout);
     let st = child.wait().map_err(|e| he(format!("wait: {e}")))?;
     drop(c); // closes our copy of the pipe's read end, so a writer thread cannot block for ever
     if let Some(w) = pipe_writer {
